@@ -32,8 +32,10 @@ Admissible(l, r) ==
     /\ (l.k \in {"org", "orgl", "orgz", "zone", "align"} /\ Active(r.cstk)) => LastComp(r) # "lab"
     \* a condition over an undefined (or valueless) symbol is open
     \* (== against an undefined symbol is false in the documentation and in the code alike: generated)
-    /\ (l.k \in {"if", "elif"} /\ Evaluated(l, r.cstk)) => r.defs[l.n] # -1
-    /\ (l.k = "ifnz" /\ Evaluated(l, r.cstk)) => r.defs[l.n] >= 0
+    /\ (l.k \in {"if", "elif"} /\ Evaluated(l, r.cstk)) => Val(r.defs, l.n) # -1
+    /\ (l.k = "ifnz" /\ Evaluated(l, r.cstk)) => Val(r.defs, l.n) >= 0
+    \* an alias used as an operand of a compiled line needs its target to have a value
+    /\ (l.k \in {"i2", "i3", "byte"} /\ l.n \in SymNames /\ Active(r.cstk)) => (r.defs[l.n] = AliasS1 => r.defs["S1"] >= 0)
     \* include brackets nest, and an include inside an unselected branch is rendered with an empty file
     /\ l.k = "ince" => (r.fstk # <<>> /\ (Active(Last(r.fstk).cstk) => r.cstk = <<>>))
     /\ (l.k # "ince" /\ r.fstk # <<>> /\ ~Active(Last(r.fstk).cstk)) => FALSE
@@ -168,7 +170,8 @@ DeclActive(p, j, chains, defs) ==
             <<TRUE>> \o DeclActive(p, j + 1, Append(Front(chains), [cur |-> t.outer /\ ~t.any, any |-> TRUE, outer |-> t.outer]), defs)
       [] l.k = "endif" -> <<TRUE>> \o DeclActive(p, j + 1, Front(chains), defs)
       [] l.k \in {"mute", "unmute"} -> <<TRUE>> \o DeclActive(p, j + 1, chains, defs)
-      [] l.k = "define" -> here \o DeclActive(p, j + 1, chains, IF allsel /\ defs[l.n] = Undef THEN [defs EXCEPT ![l.n] = l.a] ELSE defs)
+      [] l.k \in {"define", "alias"} -> here \o DeclActive(p, j + 1, chains, IF allsel /\ defs[l.n] = Undef
+                                                                             THEN [defs EXCEPT ![l.n] = IF l.k = "alias" THEN AliasS1 ELSE l.a] ELSE defs)
       [] OTHER -> here \o DeclActive(p, j + 1, chains, defs)
 
 NoIncludes == \A j \in 1..Len(prog) : prog[j].k \notin {"incb", "ince"}
